@@ -80,6 +80,18 @@ class SumFilter:
         """Apply the filter and return the result."""
         left = sequence_arg(left)
 
+        try:
+            return self._sum(left, key, context)
+        except ArithmeticError as err:
+            # Infinite, NaN or out of range operands.
+            raise LiquidTypeError(str(err) or type(err).__name__, token=None) from err
+
+    def _sum(
+        self,
+        left: list[object],
+        key: str | LambdaExpression | None,
+        context: RenderContext,
+    ) -> float | int:
         if isinstance(key, LambdaExpression):
             # Exhaust the lambda first. Its block scope stays on the render context
             # until the generator finishes, which must not depend on whether
